@@ -79,7 +79,7 @@ func e2eCaseOf(content []byte, banned []directive.Enumeration) (ec e2eCase) {
 	}()
 	var oo []core.Option
 	if len(banned) > 0 {
-		oo = append(oo, core.WithBannedDirectives(banned...))
+		oo = append(oo, banOptions(banned)...)
 	}
 	oo = append(oo, core.WithFixedSeedForRegex())
 	c2 := core.NewJApiCore(fs.NewFile("root.jst", content), oo...)
